@@ -141,6 +141,7 @@ def simple_run(prop, scratch, name, c0, vh_args, label, cov, violations, count_k
         pass
 
 
+
 def run_parse(prop, tier, seed, scratch):
     """C03: every derivation of the JSON grammar inside the bounds, every gap with whitespace, every escape / number spelling."""
     q = tier == "quick"
@@ -218,6 +219,25 @@ def run_parser_sm(prop, tier, scratch, cov):
         os.remove(res["out_path"])
     except OSError:
         pass
+    # code -> spec: long random inputs recorded through the hook, validated by TLC against ParserSM (ParserSMTrace.tla)
+    trace = scratch.path("smtrace.ndjson")
+    rc, so, se, wall = run_vh(vh, ["smtrace", "-trace", trace, "-n", "400" if q else "4000", "-maxlen", "300" if q else "600", "-seed", "1"], 600)
+    info = json.loads(so.strip().split("\n")[-1])
+    tmod = "---- MODULE MC ----\nEXTENDS ParserSMTrace\n====\n"
+    tcfg = ('CONSTANTS\n MaxLen = 0\n MaxDepth = 0\n Classes = {}\n Roots = {}\n Emit = FALSE\n TraceFile = "%s"\nSPECIFICATION TraceSpec\n'
+            'INVARIANTS TypeOK NoErrorOnViablePrefix AcceptTogether TreeAgree OkOnlyAtRootClose LineOK\nCONSTRAINT Mark\nPOSTCONDITION TraceAccepted\nCHECK_DEADLOCK FALSE\n' % trace)
+    tres = run_tlc(scratch, prop + "-parsersm-trace", tmod, tcfg, ["ParserSM.tla", "ParserSMTrace.tla"], 900, workers=1)
+    cov["states"] += tres.get("states", 0)
+    cov["transitions"] += tres.get("transitions", 0)
+    cov["parser_sm"]["recorded_inputs"] = info["inputs"]
+    cov["parser_sm"]["recorded_char_events"] = info["char_events"]
+    cov["parser_sm"]["recorded_trace_accepted"] = bool(tres["ok"])
+    if tres["ok"]:
+        cov["traces_validated_against_impl"] += info["inputs"]
+        log("[parser-sm] %d recorded runs (%d character events) of the real parser accepted by ParserSMTrace.tla" % (info["inputs"], info["char_events"]))
+    else:
+        cov["spec_drift"].append("ParserSMTrace.tla rejects a recorded run of the real parser at event %s: %s" % (tres.get("states"), tres["tail"][-400:].replace("\n", " ")))
+        log("[parser-sm] recorded runs REJECTED by ParserSMTrace.tla (spec drift, no verdict)")
 
 
 def run_errline(prop, tier, seed, scratch):
